@@ -427,6 +427,8 @@ class Channel:
 
     def write(self, runs, api=None):
         """runs: [[a_rebased_abs, len], ...]; one run -> rf_write, several -> rf_write_blocks"""
+        if self.w is None:      # the session was refused (the trace says so): nothing to call
+            return dict(resp="err", ret=-1, skipped=True)
         st = self.sess["start"]
         ev = dict(ev="write", runs=[list(r) for r in runs], uuid=self.sess["uuid"], initutc=self.sess["initutc"])
         arr = self._data(runs)
@@ -470,6 +472,8 @@ class Channel:
 
     def bad(self, kind):
         w = self.w
+        if w is None:
+            return None
         st = self.sess["start"]
         g = self.getters()
         nxt = g["next"]
@@ -519,6 +523,8 @@ class Channel:
 
     def empty(self, gap):
         w = self.w
+        if w is None:
+            return None
         d = self.sess["d"]
         before = self.tree_hash(d)
         nxt = self.getters()["next"]
@@ -536,6 +542,8 @@ class Channel:
         self.events.append(ev)
 
     def close(self):
+        if self.w is None:
+            return
         d = self.sess["d"]
         ev = dict(ev="close", uuid=self.sess["uuid"], initutc=self.sess["initutc"])
         self.w.close()
